@@ -179,14 +179,28 @@ func lessTest(info *types.Info, st ast.Stmt) *ast.CallExpr {
 	if !ok || len(call.Args) != 2 {
 		return nil
 	}
-	sel, ok := ast.Unparen(call.Fun).(*ast.SelectorExpr)
-	if !ok || sel.Sel.Name != "Less" {
-		return nil
-	}
-	if tv, ok := info.Types[sel.X]; !ok || !isTypeclassRecv(tv.Type) {
+	if inst, m := lessInst(info, call); inst == "" || m != "Less" {
 		return nil
 	}
 	return call
+}
+
+// lessInst recognises a component comparison: X.Less/Eqv/…(e1, e2) on a typeclass instance, or the direct call
+// r(e1, e2) of a value of type fp.LessFunc. It returns the instance expression (printed) and the method ("Less" for a direct call).
+func lessInst(info *types.Info, call *ast.CallExpr) (inst, method string) {
+	if len(call.Args) != 2 {
+		return "", ""
+	}
+	if sel, ok := ast.Unparen(call.Fun).(*ast.SelectorExpr); ok {
+		if tv, ok := info.Types[sel.X]; ok && isTypeclassRecv(tv.Type) && typeclassBinMethods[sel.Sel.Name] {
+			return exprString(sel.X), sel.Sel.Name
+		}
+		return "", ""
+	}
+	if tv, ok := info.Types[call.Fun]; ok && !tv.IsType() && isNamed(tv.Type, "fp", "LessFunc") {
+		return exprString(call.Fun), "Less"
+	}
+	return "", ""
 }
 
 // isMirrorGuard: `if X.Less(e2, e1) { return false }` or `if !X.Eqv(..) { return false }` for the given test.
@@ -208,20 +222,17 @@ func isMirrorGuard(info *types.Info, st ast.Stmt, test *ast.CallExpr) bool {
 	if !ok || len(call.Args) != 2 {
 		return false
 	}
-	sel, ok := ast.Unparen(call.Fun).(*ast.SelectorExpr)
-	if !ok {
-		return false
-	}
-	tsel := ast.Unparen(test.Fun).(*ast.SelectorExpr)
-	if exprString(sel.X) != exprString(tsel.X) {
+	inst, method := lessInst(info, call)
+	tinst, _ := lessInst(info, test)
+	if inst == "" || inst != tinst {
 		return false
 	}
 	a1, a2 := exprString(test.Args[0]), exprString(test.Args[1])
 	b1, b2 := exprString(call.Args[0]), exprString(call.Args[1])
-	if !neg && sel.Sel.Name == "Less" {
+	if !neg && method == "Less" {
 		return b1 == a2 && b2 == a1
 	}
-	if neg && sel.Sel.Name == "Eqv" {
+	if neg && method == "Eqv" {
 		return (b1 == a1 && b2 == a2) || (b1 == a2 && b2 == a1)
 	}
 	return false
@@ -233,12 +244,8 @@ func comparesComponent(info *types.Info, n ast.Node) bool {
 		if !ok {
 			return false
 		}
-		sel, ok := ast.Unparen(call.Fun).(*ast.SelectorExpr)
-		if !ok || !typeclassBinMethods[sel.Sel.Name] {
-			return false
-		}
-		tv, ok := info.Types[sel.X]
-		return ok && isTypeclassRecv(tv.Type)
+		inst, _ := lessInst(info, call)
+		return inst != ""
 	})
 }
 
@@ -282,7 +289,7 @@ func Lex(c *core.Ctx, rule string, pkgs []*packages.Package) {
 					} else {
 						c.Add(rule, key, test.Pos(), core.Violated,
 							"after `"+exprString(test)+"` fails the code goes on to compare further components without testing the mirrored `"+
-								exprString(ast.Unparen(test.Fun).(*ast.SelectorExpr).X)+".Less("+exprString(test.Args[1])+", "+exprString(test.Args[0])+")`: Less(a,b) and Less(b,a) can both hold")
+								lexInstName(test)+"("+exprString(test.Args[1])+", "+exprString(test.Args[0])+")`: Less(a,b) and Less(b,a) can both hold")
 					}
 					continue
 				}
@@ -304,4 +311,11 @@ func Lex(c *core.Ctx, rule string, pkgs []*packages.Package) {
 		walk(bc.fb.Body.List, false)
 	}
 	c.Floor(rule, "component less tests", n, 20)
+}
+
+func lexInstName(test *ast.CallExpr) string {
+	if sel, ok := ast.Unparen(test.Fun).(*ast.SelectorExpr); ok {
+		return exprString(sel.X) + ".Less"
+	}
+	return exprString(test.Fun)
 }
